@@ -1127,7 +1127,7 @@ func (env *c20env) random(rng *rand.Rand) {
 			cases = nil
 		}
 	}
-	ntrees := vN(200, 12000)
+	ntrees := vN(200, 8000)
 	for i := 0; i < ntrees; i++ {
 		flush(false)
 		// one tree per format: the generator depends on the format only where a construct is avoided
@@ -1145,7 +1145,7 @@ func (env *c20env) random(rng *rand.Rand) {
 			hostile = append(hostile, cl)
 		}
 	}
-	ncombo := vN(180, 12000)
+	ncombo := vN(180, 8000)
 	avoided := 0
 	for i := 0; i < ncombo; i++ {
 		flush(false)
@@ -1820,7 +1820,7 @@ func (env *c20env) conc(rng *rand.Rand) {
 	id := 0
 	// (a) fixed scenario = probe for the lock-identity defect: first holder fails while a second waits,
 	//     a third arrives while the second is downloading (req2) or extracting (resp2).
-	nprobe := vN(8, 40)
+	nprobe := vN(8, 30)
 	for i := 0; i < nprobe; i++ {
 		r := c20round{ID: id, Entry: []string{"libsub", "lib", "libsub", "esp"}[i%4], Format: c20formats[i%3], Scenario: "failfirst-latejoiner", Big: true}
 		if r.Entry == "esp" {
@@ -1836,7 +1836,7 @@ func (env *c20env) conc(rng *rand.Rand) {
 		env.runRound(srv, r, rng)
 	}
 	// (b) random rounds
-	nrand := vN(30, 400)
+	nrand := vN(30, 300)
 	lockOpen := env.open["C20-lock-identity"]
 	starts := []string{"now", "now", "req1", "resp1", "req2", "visible", "visible"}
 	faults := []string{"ok", "ok", "ok", "slow", "stall", "fail500", "truncate"}
@@ -1879,8 +1879,22 @@ func (env *c20env) conc(rng *rand.Rand) {
 			env.rep.Sample(map[string]any{"stage": "concurrent round", "round": r})
 		}
 	}
+	// (c) fixed scenario: requesters that call the instant the destination becomes visible (a destination
+	//     published before it is complete shows up here as incomplete-at-return)
+	nvis := vN(6, 30)
+	for i := 0; i < nvis; i++ {
+		r := c20round{ID: id, Scenario: "visible-joiner", N: 3, Big: true, Starts: []string{"now", "visible", "visible"}, Faults: []string{"ok", "ok", "ok"}}
+		id++
+		r.Entry = []string{"wasi", "wasi", "libsub", "wasi", "esp", "lib"}[i%6]
+		r.Format = c20formats[i%3]
+		if r.Entry == "esp" {
+			r.Format = "txz"
+		}
+		env.runRound(srv, r, rng)
+	}
 	env.rep.Extra["probe_rounds"] = nprobe
 	env.rep.Extra["random_rounds"] = nrand
+	env.rep.Extra["visible_joiner_rounds"] = nvis
 }
 
 // ---------------------------------------------------------------- entry points
